@@ -18,7 +18,7 @@ RULE = ('cases: all 12 simulators x seeded random/boundary inputs, each run in b
 ASSUMPTIONS = ['premise of the statement (same draws in both modes) is checked on the recorded draw log; pairs failing it are counted and skipped']
 BUDGET = {'quick': 150, 'thorough': 1200}
 CHUNK = {'quick': 30, 'thorough': 150}
-REQUIRED = ['mode_pairs_compared', 'premise_same_draws', 'queries_checked', 'subset_summaries_checked', 'subset_form_iterator', 'subset_form_generator', 'histories_checked'] + \
+REQUIRED = ['mode_pairs_compared', 'premise_same_draws', 'queries_checked', 'subset_summaries_checked', 'accessors_rechecked_after_subset_query', 'subset_form_iterator', 'subset_form_generator', 'histories_checked'] + \
            ['pairs:' + s for s in simreg.ALL_SIMS]
 
 
@@ -147,6 +147,19 @@ def run_case(case):
                 viol(res, '%s|subset_summary' % sim, {'subset_given_as': form, 'subset': [repr(x) for x in sub][:5], 'summary_t': list(s_t)[:6], 'evaluator_t': it[:6]})
         except Exception as e:
             viol(res, '%s|subset_summary|exception:%s' % (sim, simcase.exc_key(e)), {'err': repr(e)})
+        # the object is stateful (it caches its summary): after a subset query the whole-population views must be what they were
+        try:
+            t2, D2 = full.summary()
+            again_ok = list(t2) == st_t and all(list(D2[s]) == list(st_D[s]) for s in sts if s in st_D) and list(full.t()) == st_t
+            for s, f in (('S', full.S), ('I', full.I), ('R', full.R)):
+                if s in sts and s in st_D:
+                    again_ok = again_ok and list(f()) == list(st_D[s])
+            bump(res, 'accessors_rechecked_after_subset_query')
+            if not again_ok:
+                viol(res, '%s|accessors_after_subset_summary' % sim, {'t_len': len(list(full.t())), 'summary_len': len(st_t)})
+        except Exception as e:
+            if call_f.model != 'generic':
+                viol(res, '%s|accessors_after_subset_summary|exception:%s' % (sim, type(e).__name__), {'err': repr(e)})
     # ---- P4 histories
     if call_f.model == 'SIR':
         legal = {('S', 'I'), ('I', 'R')}
